@@ -899,6 +899,20 @@ func (cs *ChainState) restoreWithState(
 	return nil
 }
 
+// RollbackRejectedBlock undoes the in-memory effects of importing a block that the STF
+// rejected: the block is removed from the unfinalized chain, the prior state of the
+// previous head is reloaded from the store (the STF mutates it in place), the
+// half-built posterior state is discarded and the ancestry is put back.
+func (cs *ChainState) RollbackRejectedBlock(head types.HeaderHash, ancestry types.Ancestry) error {
+	if err := cs.RestoreBlockAndState(head); err != nil {
+		return err
+	}
+	cs.ClearAncestry()
+	cs.AppendAncestry(ancestry)
+	cs.GetPosteriorStates().SetState(*NewPosteriorStates().state)
+	return nil
+}
+
 func (cs *ChainState) BuildStateRootInputKeyValsAndRoot(
 	stateKeyVals types.StateKeyVals,
 ) (merkleInputKeyVals types.StateKeyVals, stateRoot types.StateRoot, err error) {
